@@ -1108,7 +1108,247 @@ end Jwt.Generated
     return "GateTables.lean", text, {"rows": rows}
 
 
-GENERATORS = [gen_base64, gen_alg, gen_common, gen_jwk, gen_ops, gen_cli, gen_conc, gen_ecframe, gen_ll, gen_base64code, gen_digests, gen_gates]
+# ---- a translator for C decision functions (if / else / return / error reports) --------------------------------
+class DecisionTranslator:
+    """Translates the body of a C function made of `if (...) ... else ...`, blocks, `return N;` and calls that only
+    report an error (jwt_write_error) into a Lean expression of type `Nat × Bool`: (return value, was a message written).
+    `atoms` maps C l-values / calls to (Lean text, kind) with kind in ptr | alg | bool | nat; everything else is refused."""
+    TOK = re.compile(r'\s*("(?:[^"\\]|\\.)*"|->|==|!=|&&|\|\||[A-Za-z_]\w*|\d+|[(){};,!.])')
+
+    def __init__(self, name, text, atoms, consts):
+        self.name, self.atoms, self.consts = name, atoms, consts
+        self.toks = []
+        pos = 0
+        text = text.strip()
+        while pos < len(text):
+            m = self.TOK.match(text, pos)
+            if not m:
+                raise ExtractError("%s: cannot tokenise at %r" % (name, text[pos:pos + 30]))
+            self.toks.append(m.group(1))
+            pos = m.end()
+        self.i = 0
+
+    def peek(self):
+        return self.toks[self.i] if self.i < len(self.toks) else None
+
+    def eat(self, t=None):
+        tok = self.peek()
+        if tok is None or (t is not None and tok != t):
+            raise ExtractError("%s: expected %r, found %r" % (self.name, t, tok))
+        self.i += 1
+        return tok
+
+    # ----- expressions -----
+    def primary(self):
+        t = self.eat()
+        if t == "(":
+            e = self.expr_or()
+            self.eat(")")
+            return e
+        if t == "!":
+            txt, kind = self.primary()
+            return self.negate(self.as_bool((txt, kind))), "bool"
+        if re.fullmatch(r"\d+", t):
+            return t, "nat"
+        if t == "NULL":
+            return "NULL", "null"
+        if t in self.consts:
+            return self.consts[t], "alg"
+        # identifier chain or call
+        chain = t
+        while self.peek() in ("->", "."):
+            chain += self.eat() + self.eat()
+        if self.peek() == "(":
+            self.eat("(")
+            depth, args = 1, []
+            while depth:
+                x = self.eat()
+                depth += x == "("
+                depth -= x == ")"
+                if depth:
+                    args.append(x)
+            chain += "(" + "".join(args) + ")"
+        if chain not in self.atoms:
+            raise ExtractError("%s: unknown operand %r" % (self.name, chain))
+        return self.atoms[chain]
+
+    def as_bool(self, e):
+        txt, kind = e
+        if kind == "bool":
+            return txt
+        if kind == "ptr":
+            return "(%s = false)" % txt          # txt is the `…Null` flag: pointer in boolean context = not null
+        if kind == "nat":
+            return "(%s ≠ 0)" % txt
+        raise ExtractError("%s: %r used as a condition" % (self.name, txt))
+
+    @staticmethod
+    def negate(b):
+        return "(¬ %s)" % b
+
+    def expr_eq(self):
+        l = self.primary()
+        while self.peek() in ("==", "!="):
+            op = self.eat()
+            r = self.primary()
+            if r[1] == "null" or l[1] == "null":
+                p_ = l if r[1] == "null" else r
+                if p_[1] != "ptr":
+                    raise ExtractError("%s: NULL compared with a non-pointer" % self.name)
+                txt = "(%s = %s)" % (p_[0], "true" if op == "==" else "false")
+            elif l[1] == r[1] and l[1] in ("alg", "nat"):
+                txt = "(%s %s %s)" % (l[0], "=" if op == "==" else "≠", r[0])
+            else:
+                raise ExtractError("%s: comparison of %r with %r" % (self.name, l, r))
+            l = (txt, "bool")
+        return l
+
+    def expr_and(self):
+        l = self.expr_eq()
+        while self.peek() == "&&":
+            self.eat()
+            r = self.expr_eq()
+            l = ("(%s ∧ %s)" % (self.as_bool(l), self.as_bool(r)), "bool")
+        return l
+
+    def expr_or(self):
+        l = self.expr_and()
+        while self.peek() == "||":
+            self.eat()
+            r = self.expr_and()
+            l = ("(%s ∨ %s)" % (self.as_bool(l), self.as_bool(r)), "bool")
+        return l
+
+    # ----- statements: returns Lean text given the continuation text `k` (what runs after the statement) -----
+    def stmt(self, k, ind):
+        t = self.peek()
+        pad = "  " * ind
+        if t == "{":
+            self.eat("{")
+            body = []
+            while self.peek() != "}":
+                body.append(self.i)
+                self.skip_stmt()
+            self.eat("}")
+            end = self.i
+            # translate right-to-left so that each statement gets the rest of the block as continuation
+            res = k
+            for st in reversed(body):
+                self.i = st
+                res = self.stmt(res, ind)
+            self.i = end
+            return res
+        if t == "if":
+            self.eat("if")
+            self.eat("(")
+            c = self.as_bool(self.expr_or())
+            self.eat(")")
+            a = self.stmt(k, ind + 1)
+            b = k
+            if self.peek() == "else":
+                self.eat("else")
+                b = self.stmt(k, ind + 1)
+            return "(if %s then\n%s  %s\n%selse\n%s  %s)" % (c, pad, a, pad, pad, b)
+        if t == "return":
+            self.eat("return")
+            v = self.eat()
+            if not re.fullmatch(r"\d+", v):
+                raise ExtractError("%s: return of %r" % (self.name, v))
+            self.eat(";")
+            return "(%s, w)" % v
+        if t in ("jwt_write_error",):
+            self.eat()
+            self.eat("(")
+            depth = 1
+            while depth:
+                x = self.eat()
+                depth += x == "("
+                depth -= x == ")"
+            self.eat(";")
+            return "(let w := true;\n%s %s)" % (pad, k)
+        raise ExtractError("%s: statement starting with %r outside the translatable fragment" % (self.name, t))
+
+    def skip_stmt(self):
+        t = self.peek()
+        if t == "{":
+            self.eat("{")
+            while self.peek() != "}":
+                self.skip_stmt()
+            self.eat("}")
+        elif t == "if":
+            self.eat("if")
+            self.eat("(")
+            depth = 1
+            while depth:
+                x = self.eat()
+                depth += x == "("
+                depth -= x == ")"
+            self.skip_stmt()
+            if self.peek() == "else":
+                self.eat("else")
+                self.skip_stmt()
+        else:
+            while self.eat() != ";":
+                pass
+
+
+def gen_decisions(repo, build):
+    """`__setkey_check` (jwt-common.c, both compilations) and `__verify_config_post` (jwt-verify.c), translated"""
+    def clean(path):
+        t = open(os.path.join(repo, path)).read()
+        t = re.sub(r"/\*.*?\*/", " ", t, flags=re.S)
+        return re.sub(r"//[^\n]*", " ", t)
+    common = clean("libjwt/jwt-common.c")
+    body = func_body(common, r"\b__setkey_check\s*\([^)]*\)\s*\{")
+    variants = {}
+    for side in ("Builder", "Checker"):
+        b = body
+        if side == "Builder":
+            b = re.sub(r"#\s*ifdef\s+JWT_BUILDER\s*\n(.*?)#\s*endif", r"\1", b, flags=re.S)
+        else:
+            b = re.sub(r"#\s*ifdef\s+JWT_BUILDER\s*\n.*?#\s*endif", " ", b, flags=re.S)
+        if "#" in b:
+            raise ExtractError("__setkey_check: preprocessor conditionals other than #ifdef JWT_BUILDER")
+        atoms = {"__cmd": ("cmdNull", "ptr"), "key": ("keyNull", "ptr"), "alg": ("alg", "alg"), "key->alg": ("keyAlg", "alg"),
+                 "key->is_private_key": ("keyPriv", "bool")}
+        tr = DecisionTranslator("__setkey_check", b, atoms, {"JWT_ALG_NONE": "Alg.none"})
+        variants[side] = tr.stmt("(0, w)", 1)
+        if tr.i != len(tr.toks):
+            raise ExtractError("__setkey_check: trailing tokens")
+    vbody = func_body(clean("libjwt/jwt-verify.c"), r"\b__verify_config_post\s*\([^)]*\)\s*\{")
+    atoms = {"__verify_claims(jwt)": ("claimsFail", "bool"), "sig_len": ("sigLen", "nat"), "config->key": ("cfgKeyNull", "ptr"),
+             "config->alg": ("cfgAlg", "alg"), "jwt->alg": ("jwtAlg", "alg"), "config->key->alg": ("cfgKeyAlg", "alg")}
+    tr = DecisionTranslator("__verify_config_post", vbody, atoms, {"JWT_ALG_NONE": "Alg.none"})
+    post = tr.stmt("(0, w)", 1)
+    text = f"""/- GENERATED by tie/extract.py from libjwt/jwt-common.c (__setkey_check, compiled as builder and as checker) and
+   libjwt/jwt-verify.c (__verify_config_post) -- do not edit.
+   The functions' bodies translated statement by statement: `if`/`else`, blocks, `return N`, and `jwt_write_error(...)`
+   (recorded as "a message was written"). Pointers appear as their `…Null` flag, fields read through them as separate
+   arguments (the equivalence theorems hold for every value of a field whose pointer is NULL: the code never depends on it).
+   Result: (return value, message written). Regenerated from /repo on every check run; Jwt/Lemmas/Decisions.lean proves
+   the hand-written model equal to these. -/
+import Jwt.AlgType
+namespace Jwt.Generated
+open Jwt
+
+def setkeyCheckBuilder (cmdNull keyNull keyPriv : Bool) (alg keyAlg : Alg) : Nat × Bool :=
+  let w := false;
+  {variants["Builder"]}
+
+def setkeyCheckChecker (cmdNull keyNull keyPriv : Bool) (alg keyAlg : Alg) : Nat × Bool :=
+  let w := false;
+  {variants["Checker"]}
+
+def verifyConfigPost (claimsFail cfgKeyNull : Bool) (sigLen : Nat) (cfgAlg cfgKeyAlg jwtAlg : Alg) : Nat × Bool :=
+  let w := false;
+  {post}
+
+end Jwt.Generated
+"""
+    return "Decisions.lean", text, {"functions": ["__setkey_check (builder)", "__setkey_check (checker)", "__verify_config_post"]}
+
+
+GENERATORS = [gen_base64, gen_alg, gen_common, gen_jwk, gen_ops, gen_cli, gen_conc, gen_ecframe, gen_ll, gen_base64code, gen_digests, gen_gates, gen_decisions]
 
 
 def main():
